@@ -24,6 +24,9 @@ class Ctl:
         self.count = 0
         self.fault_at = None
         self.kinds = []
+        self.caller_state = None
+        self.probed = False
+        self.shared = []
 
     def reset(self, fault_at):
         self.count = 0
@@ -83,8 +86,78 @@ def unitary(n, seed):
     return q
 
 
+DT = {"float64": np.float64, "float32": np.float32, "complex128": np.complex128, "complex64": np.complex64}
+
+
+def array_values(kind, n, seed):
+    """Values that make normalisations non-trivial (columns summing to 1 only up to an ulp)."""
+    if kind == "unitary":
+        return unitary(n, seed)
+    if kind == "lossy":
+        return unitary(n, seed) @ np.diag(np.linspace(0.95, 0.8, n))
+    if kind == "detector":
+        # columns sum to 1 only up to an ulp (accepted by _validate, which uses np.isclose)
+        if n == 2:
+            x = next(a for a in np.arange(0.01, 0.99, 0.01) if a + np.nextafter(1 - a, 0) != 1.0)
+            return np.array([[1.0, x], [0.0, np.nextafter(1 - x, 0)]])
+        cols = [[1.0, 0.0, 0.0, 0.0], [0.29, 0.35, 0.36, 0.0], [0.3, 0.35, 0.35, 0.0], [0.1, 0.3, 0.3, 0.3]]
+        m = np.array([c[:n] for c in cols[:n]]).T
+        assert m[:, 1].sum() != 1.0 and m[:, 2].sum() != 1.0
+        return m
+    if kind == "zeros":
+        return np.zeros((n, n))
+    if kind == "adjacency":
+        a = (np.random.default_rng(seed).random((n, n)) < 0.6).astype(float)
+        a = np.triu(a, 1)
+        return a + a.T
+    if kind == "cov":
+        g = np.random.default_rng(seed).normal(size=(n, n)) * 0.1
+        return 2.0 * (1.3 * np.eye(n) + g @ g.T)
+    if kind == "eye":
+        return np.eye(n)
+    if kind == "overlap":
+        return 0.4 * np.ones((n, n)) + 0.6 * np.eye(n)
+    if kind == "vector":
+        return np.linspace(0.3, 0.9, n) + 1e-9 / 3
+    raise ValueError(kind)
+
+
+def make_array(spec):
+    a = np.asarray(array_values(spec["kind"], spec["n"], spec.get("seed", 1)))
+    if spec.get("scale") is not None:
+        a = a * spec["scale"]
+    dt = DT[spec["dtype"]]
+    if (np.iscomplexobj(a) or spec.get("complex")) and not np.issubdtype(dt, np.complexfloating):
+        dt = {np.float64: np.complex128, np.float32: np.complex64}[dt]
+    a = a.astype(dt)
+    layout = spec.get("layout", "C")
+    if layout == "C":
+        return np.ascontiguousarray(a)
+    if layout == "F":
+        return np.asfortranarray(a)
+    if layout == "strided":
+        big = np.zeros(tuple(2 * k for k in a.shape), dtype=a.dtype)
+        sl = tuple(slice(None, None, 2) for _ in a.shape)
+        big[sl] = a
+        return big[sl]
+    if layout == "readonly":
+        a = np.ascontiguousarray(a)
+        a.setflags(write=False)
+        return a
+    if layout == "list":
+        return a.tolist()
+    raise ValueError(layout)
+
+
+HANDED = []      # (instruction index, keyword, object) of every ndarray handed to a constructor
+
+
 def make_param(p):
     tag, val = p
+    if tag == 6:
+        return make_array(val)
+    if tag == 7:
+        return {tuple(k): v for k, v in val}
     if tag == 0:
         return float(val)
     if tag == 1:
@@ -100,11 +173,15 @@ def make_param(p):
     raise ValueError(tag)
 
 
-def build(spec):
+def build(spec, remember=True):
     instrs = []
-    for isp in spec:
+    if remember:
+        del HANDED[:]
+    for idx, isp in enumerate(spec):
         cls = getattr(pq, isp["cls"])
         kwargs = {k: make_param(v) for k, v in isp["params"].items()}
+        if remember:
+            HANDED.extend((idx, k, v) for k, v in kwargs.items() if isinstance(v, np.ndarray))
         ins = cls(**kwargs)
         if isp["modes"]:
             ins = ins.on_modes(*isp["modes"])
@@ -147,14 +224,39 @@ def snap_prog(prog):
     return out
 
 
+def snap_handed():
+    """byte-for-byte content (and flags) of every ndarray the caller handed to a constructor"""
+    return [[idx, k, str(v.dtype), list(v.shape), hashlib.sha1(v.tobytes()).hexdigest()[:16]] for idx, k, v in HANDED]
+
+
+def deep_arrays(obj, path="", depth=0, out=None, seen=None):
+    """every ndarray reachable from an object's attributes (lists, tuples, dicts included)"""
+    if out is None:
+        out, seen = [], set()
+    if id(obj) in seen or depth > 4:
+        return out
+    seen.add(id(obj))
+    if isinstance(obj, np.ndarray):
+        out.append((path, obj))
+    elif isinstance(obj, (list, tuple)):
+        for k, v in enumerate(obj[:50]):
+            deep_arrays(v, "%s[%d]" % (path, k), depth + 1, out, seen)
+    elif isinstance(obj, dict):
+        for k, v in list(obj.items())[:50]:
+            deep_arrays(v, "%s[%r]" % (path, k), depth + 1, out, seen)
+    elif isinstance(obj, (pq.State, pq.Config)):
+        for k, v in sorted(obj.__dict__.items()):
+            if k not in ("_connector", "rng", "_python_rng"):
+                deep_arrays(v, "%s.%s" % (path, k), depth + 1, out, seen)
+    return out
+
+
 def snap_state(st):
     if st is None:
         return None
-    out = []
+    out = [[p] + pv(a) for p, a in deep_arrays(st)]
     for k, v in sorted(st.__dict__.items()):
-        if isinstance(v, np.ndarray):
-            out.append([k] + pv(v))
-        elif isinstance(v, pq.Config):
+        if isinstance(v, pq.Config):
             out.append([k, snap_cfg(v)])
         elif isinstance(v, (int, float, complex, str, tuple, type(None))):
             out.append([k, repr(v)])
@@ -184,6 +286,14 @@ def wrapped_sim_class(name):
     def wrap(step):
         def w(state, instruction, shots):
             CTL.tick("step:" + type(instruction).__name__)
+            if CTL.caller_state is not None and not CTL.probed:
+                # the state the first step works on must own fresh arrays (State.copy)
+                CTL.probed = True
+                mine = deep_arrays(CTL.caller_state)
+                for p, a in deep_arrays(state):
+                    for q, b in mine:
+                        if a.size and b.size and np.shares_memory(a, b):
+                            CTL.shared.append([p, q])
             return step(state, instruction, shots)
         return w
 
@@ -215,75 +325,198 @@ def patch_validate(prog):
         c._validate = v
 
 
+def state_arrays(st):
+    return [np.array(a, copy=True) for _, a in deep_arrays(st)] if st is not None else []
+
+
+def run_case(case):
+    """Clean run, then a run with a fault at every (or the last three) call positions; every
+    object the caller handed in is snapshotted before and compared after."""
+    simcls = wrapped_sim_class(case["sim"])
+    cfg_dtype = DT[case.get("dtype", "float64")]
+
+    def one(fault_at, rerun):
+        ucfg = pq.Config(seed_sequence=case["seed"], cutoff=case.get("cutoff"),
+                         validate=case.get("validate", True), dtype=cfg_dtype)
+        sim = simcls(d=case["d"], config=ucfg)
+        init = None
+        CTL.caller_state = None
+        if case.get("prep"):
+            CTL.reset(None)
+            init = sim.execute(build(case["prep"], remember=False)).state
+        prog = build(case["prog"])
+        patch_validate(prog)
+        before = (snap_prog(prog), snap_state(init), snap_cfg(ucfg), snap_handed())
+        rng_before = repr(ucfg.rng.bit_generator.state)
+        rnd = random.getstate()
+        CTL.reset(fault_at)
+        CTL.caller_state, CTL.probed, CTL.shared = init, False, []
+        rec = {"fault_at": fault_at}
+        first_state = None
+        try:
+            res = sim.execute(prog, shots=case["shots"], initial_state=init)
+            rec["result"] = ["ok", [[repr(o) for o in b.outcome] for b in res.branches][:40]]
+            first_state = [state_arrays(b.state) for b in res.branches[:4]]
+            if init is not None and res.branches:
+                # which arrays of a state do the steps change at all?
+                fin = dict(deep_arrays(res.branches[0].state))
+                rec["changed_paths"] = sorted(p for p, a in deep_arrays(init)
+                                              if p in fin and fin[p].shape == a.shape and not np.array_equal(fin[p], a, equal_nan=True))
+        except Exception as e:  # noqa: BLE001
+            rec["result"] = ["raise", type(e).__name__, re.sub(r"0x[0-9a-f]+", "0x..", str(e))[:120]]
+        rec["ncalls"] = CTL.count
+        rec["kinds"] = list(CTL.kinds)
+        rec["shared_with_initial_state"] = list(CTL.shared)
+        CTL.caller_state = None
+        after = (snap_prog(prog), snap_state(init), snap_cfg(ucfg), snap_handed())
+        rec["prog_before"], rec["prog_after"] = before[0], after[0]
+        rec["state_same"] = before[1] == after[1]
+        if not rec["state_same"]:
+            rec["state_diff"] = [x for x, y in zip(before[1], after[1]) if x != y][:3]
+        rec["config_same"] = before[2] == after[2]
+        rec["handed_same"] = before[3] == after[3]
+        if not rec["handed_same"]:
+            rec["handed_diff"] = [[x, y] for x, y in zip(before[3], after[3]) if x != y][:3]
+        rec["params_identity"] = all(prog.instructions[i].params.get(k) is v for i, k, v in HANDED)
+        rec["user_rng_advanced"] = rng_before != repr(ucfg.rng.bit_generator.state)
+        rec["global_random_same"] = random.getstate() == rnd
+        if rerun:
+            # a second, fault-free execution on the same objects
+            CTL.reset(None)
+            try:
+                res2 = sim.execute(prog, shots=case["shots"], initial_state=init)
+                rec["rerun"] = ["ok"]
+                if fault_at is None and first_state is not None and case.get("deterministic"):
+                    second = [state_arrays(b.state) for b in res2.branches[:4]]
+                    rec["rerun_same_state"] = len(first_state) == len(second) and all(
+                        len(x) == len(y) and all(p.shape == q.shape and np.allclose(p, q, atol=1e-10, equal_nan=True) for p, q in zip(x, y))
+                        for x, y in zip(first_state, second))
+            except Exception as e:  # noqa: BLE001
+                rec["rerun"] = ["raise", type(e).__name__, re.sub(r"0x[0-9a-f]+", "0x..", str(e))[:120]]
+            rec["rerun_prog"] = snap_prog(prog)
+            rec["rerun_state_same"] = snap_state(init) == before[1]
+            rec["rerun_handed_same"] = snap_handed() == before[3]
+        # the other entry points of the property on the same objects
+        rnd2 = random.getstate()
+        other = {}
+        pb = (snap_prog(prog), snap_handed())
+        for name, f in (("validate", lambda: sim.validate(prog)), ("copy", lambda: prog.copy()),
+                        ("to_blackbird_code", lambda: prog.to_blackbird_code()),
+                        ("as_code", lambda: pq.as_code(prog, sim, shots=1))):
+            if fault_at is not None or case.get("no_other"):
+                break
+            try:
+                f()
+                r = "ok"
+            except Exception as e:  # noqa: BLE001
+                r = "raise " + type(e).__name__
+            other[name] = [r, (snap_prog(prog), snap_handed()) == pb, random.getstate() == rnd2]
+            rnd2 = random.getstate()
+        rec["other"] = other
+        return rec
+
+    clean = one(None, bool(case.get("rerun_clean")))
+    runs = [clean]
+    n = clean["ncalls"]
+    tail = {"all": n, "tail3": 3, "tail2": 2, "tail1": 1, "none": 0}[case.get("faults", "all")]
+    positions = range(max(0, n - tail), n)
+    for k in positions:
+        runs.append(one(k, True))
+    return {"runs": runs}
+
+
 def real_section(cases):
     _expressions.Expression.__call__ = _counted_expr_call
+    return [run_case(case) for case in cases]
+
+
+# ----------------------------------------------------------------------------- initial_state x every step
+A = lambda kind, n, **kw: [6, dict(kind=kind, n=n, dtype=kw.pop("dtype", "float64"), **kw)]  # noqa: E731
+
+DEFAULT_KW = {
+    "Annihilate": {}, "Attenuator": {"theta": [0, 0.3]}, "Beamsplitter": {"theta": [0, 0.4], "phi": [0, 0.2]},
+    "Beamsplitter5050": {}, "ControlledX": {"s": [0, 0.2]}, "ControlledZ": {"s": [0, 0.2]},
+    "Covariance": {"cov": A("cov", 4)}, "Create": {}, "CrossKerr": {"xi": [0, 0.7]}, "CubicPhase": {"gamma": [0, 0.1]},
+    "DensityMatrix": {"ket": [5, [1, 0]], "bra": [5, [1, 0]]},
+    "DeterministicGaussianChannel": {"X": A("eye", 2, scale=0.9), "Y": A("eye", 2, scale=0.5)},
+    "Displacement": {"r": [0, 0.2], "phi": [0, 0.1]},
+    "DistinguishableNumberState": {"occupation_numbers": [5, [1, 1]], "particle_overlap": A("overlap", 2)},
+    "FockStateVector": {"fock_amplitude_map": [7, [[[1, 0], 0.6], [[0, 1], 0.8]]]}, "Fourier": {},
+    "GaussianTransform": {"passive": A("unitary", 2, seed=3), "active": A("zeros", 2, dtype="complex128")},
+    "GeneraldyneMeasurement": {"detection_covariance": A("eye", 2)}, "Graph": {"adjacency_matrix": A("adjacency", 2)},
+    "HeterodyneMeasurement": {}, "HomodyneMeasurement": {},
+    "ImperfectParticleNumberMeasurement": {"detector_efficiency_matrix": A("detector", 3)},
+    "ImperfectPostSelectPhotons": {"photon_counts": [5, [1]], "detector_efficiency_matrix": A("detector", 3)},
+    "Interferometer": {"matrix": A("unitary", 2, seed=5)}, "Kerr": {"xi": [0, 0.3]},
+    "Loss": {"transmissivity": A("vector", 2)}, "LossyInterferometer": {"matrix": A("lossy", 2, seed=5)},
+    "MachZehnder": {"int_": [0, 0.3], "ext": [0, 0.2]}, "Mean": {"mean": A("vector", 4)},
+    "MomentumDisplacement": {"p": [0, 0.2]}, "NumberState": {"occupation_numbers": [5, [1, 0]]},
+    "ParticleNumberMeasurement": {}, "Phaseshifter": {"phi": [0, 0.3]}, "PositionDisplacement": {"x": [0, 0.2]},
+    "PostSelectPhotons": {"photon_counts": [5, [1]]}, "QuadraticPhase": {"s": [0, 0.2]},
+    "SNAP": {"theta": A("vector", 4)}, "Squeezing": {"r": [0, 0.2], "phi": [0, 0.1]},
+    "Squeezing2": {"r": [0, 0.2], "phi": [0, 0.1]}, "StateVector": {"occupation_numbers": [5, [1, 0]]},
+    "Thermal": {"mean_photon_numbers": A("vector", 2)}, "ThresholdMeasurement": {}, "UniformLoss": {"transmissivity": [0, 0.9]},
+    "Vacuum": {},
+}
+SIMS["passive"] = lambda: pq.PassiveSimulator
+PREPS = {
+    "purefock": [{"cls": "NumberState", "modes": [0, 1], "params": {"occupation_numbers": [5, [1, 1]]}},
+                 {"cls": "Beamsplitter", "modes": [0, 1], "params": {"theta": [0, 0.6], "phi": [0, 0.3]}}],
+    "fock": [{"cls": "Vacuum", "modes": [], "params": {}},
+             {"cls": "Squeezing", "modes": [0], "params": {"r": [0, 0.3]}},
+             {"cls": "Beamsplitter", "modes": [0, 1], "params": {"theta": [0, 0.6], "phi": [0, 0.3]}}],
+    "gaussian": [{"cls": "Vacuum", "modes": [], "params": {}},
+                 {"cls": "Squeezing", "modes": [0], "params": {"r": [0, 0.3]}},
+                 {"cls": "Displacement", "modes": [1], "params": {"r": [0, 0.2]}},
+                 {"cls": "Beamsplitter", "modes": [0, 1], "params": {"theta": [0, 0.6], "phi": [0, 0.3]}}],
+    "sampling": [{"cls": "NumberState", "modes": [0, 1], "params": {"occupation_numbers": [5, [1, 1]]}},
+                 {"cls": "Beamsplitter", "modes": [0, 1], "params": {"theta": [0, 0.6], "phi": [0, 0.3]}}],
+}
+PREPS["passive"] = PREPS["sampling"]
+
+
+def initstate_cases(req):
+    """For every simulator and every instruction class of its _instruction_map (introspection):
+    the prepared state is handed in as initial_state of [that instruction, an ordinary gate]."""
+    from piquasso.api.instruction import Measurement
     out = []
-    for case in cases:
-        simcls = wrapped_sim_class(case["sim"])
-
-        def one(fault_at, rerun):
-            ucfg = pq.Config(seed_sequence=case["seed"], cutoff=case.get("cutoff"),
-                             validate=case.get("validate", True))
-            sim = simcls(d=case["d"], config=ucfg)
-            init = None
-            if case.get("prep"):
-                CTL.reset(None)
-                init = sim.execute(build(case["prep"])).state
-            prog = build(case["prog"])
-            patch_validate(prog)
-            before = (snap_prog(prog), snap_state(init), snap_cfg(ucfg))
-            rng_before = repr(ucfg.rng.bit_generator.state)
-            rnd = random.getstate()
-            CTL.reset(fault_at)
-            rec = {"fault_at": fault_at}
-            try:
-                res = sim.execute(prog, shots=case["shots"], initial_state=init)
-                rec["result"] = ["ok", [[repr(o) for o in b.outcome] for b in res.branches][:40]]
-            except Exception as e:  # noqa: BLE001
-                rec["result"] = ["raise", type(e).__name__, re.sub(r"0x[0-9a-f]+", "0x..", str(e))[:120]]
-            rec["ncalls"] = CTL.count
-            rec["kinds"] = list(CTL.kinds)
-            after = (snap_prog(prog), snap_state(init), snap_cfg(ucfg))
-            rec["prog_before"], rec["prog_after"] = before[0], after[0]
-            rec["state_same"] = before[1] == after[1]
-            rec["config_same"] = before[2] == after[2]
-            rec["user_rng_advanced"] = rng_before != repr(ucfg.rng.bit_generator.state)
-            rec["global_random_same"] = random.getstate() == rnd
-            if rerun:
-                # a second, fault-free execution on the same objects: compare the sequence of
-                # external calls and the program afterwards with a fresh clean run
-                CTL.reset(None)
-                try:
-                    sim.execute(prog, shots=case["shots"], initial_state=init)
-                    rec["rerun"] = ["ok"]
-                except Exception as e:  # noqa: BLE001
-                    rec["rerun"] = ["raise", type(e).__name__, re.sub(r"0x[0-9a-f]+", "0x..", str(e))[:120]]
-                rec["rerun_prog"] = snap_prog(prog)
-            # the other entry points of the property on the same objects
-            rnd2 = random.getstate()
-            other = {}
-            pb = snap_prog(prog)
-            for name, f in (("validate", lambda: sim.validate(prog)), ("copy", lambda: prog.copy()),
-                            ("to_blackbird_code", lambda: prog.to_blackbird_code()),
-                            ("as_code", lambda: pq.as_code(prog, sim, shots=1))):
-                if fault_at is not None:
-                    break
-                try:
-                    f()
-                    r = "ok"
-                except Exception as e:  # noqa: BLE001
-                    r = "raise " + type(e).__name__
-                other[name] = [r, snap_prog(prog) == pb, random.getstate() == rnd2]
-                rnd2 = random.getstate()
-            rec["other"] = other
-            return rec
-
-        clean = one(None, False)
-        runs = [clean]
-        for k in range(clean["ncalls"]):
-            runs.append(one(k, True))
-        out.append({"runs": runs})
+    for sim in req["sims"]:
+        smap = SIMS[sim]()(d=2)._instruction_map
+        for cls in smap:
+            name = cls.__name__
+            if name not in DEFAULT_KW:
+                out.append({"skip": [sim, name]})
+                continue
+            nm = cls.NUMBER_OF_MODES
+            meas = issubclass(cls, Measurement)
+            modes = [0] if nm == 1 else ([0, 1] if nm == 2 or not meas else [1])
+            if name in ("ImperfectParticleNumberMeasurement", "ParticleNumberMeasurement", "ThresholdMeasurement",
+                        "HeterodyneMeasurement", "HomodyneMeasurement", "GeneraldyneMeasurement",
+                        "PostSelectPhotons", "ImperfectPostSelectPhotons"):
+                modes = [1]
+            first = {"cls": name, "modes": modes, "params": DEFAULT_KW[name]}
+            follow = {"cls": "Phaseshifter", "modes": [0], "params": {"phi": [0, 0.25]}}
+            out.append({"sim": sim, "d": 2, "cutoff": 4, "seed": req["seed"], "shots": 1 if not meas else 3,
+                        "prep": PREPS[sim], "prog": [first] if meas else [first, follow], "rerun_clean": True,
+                        "deterministic": not meas, "faults": req.get("faults", "tail1"), "no_other": True, "first": name})
     return out
+
+
+def initstate_section(req):
+    _expressions.Expression.__call__ = _counted_expr_call
+    res = []
+    for case in initstate_cases(req):
+        if "skip" in case:
+            res.append({"skip": case["skip"]})
+            continue
+        try:
+            r = run_case(case)
+        except Exception as e:  # noqa: BLE001
+            res.append({"case": case, "error": type(e).__name__ + ": " + str(e)[:200]})
+            continue
+        r["case"] = case
+        res.append(r)
+    return res
 
 
 # ----------------------------------------------------------------------------- arrays
